@@ -29,6 +29,12 @@ SPECS = {
                      'impl Clone for Lexem {\n    #[verifier::external_body]\n'
                      '    fn clone(&self) -> (r: Lexem) ensures r == *self { unimplemented!() }\n}\n'),
 
+    # constructors: proved to build exactly the node their name says (strongest postcondition)
+    'Expr::value': dict(ret='r', ensures=['r == (Expr { left: None, arithmetic_op: None, logical_op: None, op: None, right: None, minus: false, field: None, function: None, args: None, val: Some(value) })']),
+    'Expr::field': dict(ret='r', ensures=['r == (Expr { left: None, arithmetic_op: None, logical_op: None, op: None, right: None, minus: false, field: Some(field), function: None, args: None, val: None })']),
+    'Expr::op': dict(ret='r', ensures=['r == (Expr { left: Some(Box::new(left)), arithmetic_op: None, logical_op: None, op: Some(op), right: Some(Box::new(right)), minus: false, field: None, function: None, args: None, val: None })']),
+    'Expr::logical_op': dict(ret='r', ensures=['r == (Expr { left: Some(Box::new(left)), arithmetic_op: None, logical_op: Some(logical_op), op: None, right: Some(Box::new(right)), minus: false, field: None, function: None, args: None, val: None })']),
+    'Expr::arithmetic_op': dict(ret='r', ensures=['r == (Expr { left: Some(Box::new(left)), arithmetic_op: Some(arithmetic_op), logical_op: None, op: None, right: Some(Box::new(right)), minus: false, field: None, function: None, args: None, val: None })']),
     'Op::negate': dict(ret='r', ensures=['r == spec_negate(op)']),
     'Op::from_with_not': dict(ret='r'),
 
@@ -50,16 +56,83 @@ SPECS = {
     'parse_add_sub': parse_fn(loops={0: dict(invariant=LOOPINV + ['left is Some'])}),
     'parse_mul_div': parse_fn(loops={0: dict(invariant=LOOPINV + ['left is Some'])}),
     'parse_paren': parse_fn(),
-    'parse_func_scalar': parse_fn(),
+    'parse_func_scalar': parse_fn(proofs={r'let\s+mut\s+lexem\s*=\s*self\.next_lexem\(\);': 'proof { broadcast use axiom_to_string_of_string; }'}, extra_ens=[
+        # C02.quoted.literal: a quoted token is always text
+        '/*C02.quoted.literal*/ (lexem_at(*old(self), 0) is Some && lexem_at(*old(self), 0)->Some_0 is String) ==> (r matches Ok(Some(e)) && '
+        'e.val is Some && e.val->Some_0@ == lexem_at(*old(self), 0)->Some_0->String_0@ && e.field is None && e.function is None '
+        '&& e.left is None && e.right is None && e.op is None && e.logical_op is None && e.arithmetic_op is None && !e.minus '
+        '&& final(self).index == old(self).index + 1)',
+    ]),
     'parse_function': dict(ret='r', attrs=[NODEC], ensures=FRAME, loops={0: dict(invariant=LOOPINV)}, guard_to_if=True),
     'parse_group_by': dict(ret='r', attrs=[NODEC], ensures=FRAME, loops={0: dict(invariant=LOOPINV)}),
-    'parse_order_by': dict(ret='r', attrs=[NODEC], ensures=FRAME, loops={0: dict(invariant=LOOPINV)}),
-    'parse_limit': dict(ret='r', attrs=[NODEC], ensures=FRAME),
+    'parse_order_by': dict(ret='r', attrs=[NODEC], ensures=FRAME + ['/*C05.orderby.parse*/ r matches Ok(p) ==> p.0.len() == p.1.len()'],
+                           loops={0: dict(invariant=LOOPINV + ['order_by_fields.len() == order_by_directions.len()'])}),
+    'parse_limit': dict(ret='r', attrs=[NODEC], ensures=FRAME + [
+        # C06.limit.parse: absent LIMIT means unlimited (0) and consumes nothing
+        '/*C06.limit.parse*/ !(lexem_at(*old(self), 0) is Some && lexem_at(*old(self), 0)->Some_0 is Limit) ==> r == Ok::<u32, &str>(0u32) && final(self).index == old(self).index',
+        # LIMIT followed by a word: the number it denotes, or an error - never a silently substituted value
+        '/*C06.limit.parse*/ (lexem_at(*old(self), 0) is Some && lexem_at(*old(self), 0)->Some_0 is Limit && lexem_text(lexem_at(*old(self), 1)) is Some) ==> '
+        '(match spec_parse::<u32>(lexem_text(lexem_at(*old(self), 1))->Some_0) { Some(n) => r == Ok::<u32, &str>(n), None => r is Err })',
+        '/*C06.limit.parse*/ (lexem_at(*old(self), 0) is Some && lexem_at(*old(self), 0)->Some_0 is Limit && lexem_text(lexem_at(*old(self), 1)) is None) ==> r is Err',
+    ]),
     'parse_output_format': dict(ret='r', attrs=[NODEC], ensures=FRAME),
-    'negate_expr_op': dict(ret='r', attrs=[NODEC], rewrites=[('let &Some(op) = &expr.op', 'let Some(op) = expr.op')]),
+    'negate_expr_op': dict(ret='r', attrs=[NODEC], rewrites=[('let &Some(op) = &expr.op', 'let Some(op) = expr.op')],
+                           ensures=['/*C03.demorgan*/ cond_wf(*expr) ==> cond_wf(r)',
+                                    '/*C03.demorgan*/ cond_wf(*expr) ==> cond_sem(r) == !cond_sem(*expr)'],
+                           proofs={r'let\s+mut\s+result\s*=\s*expr\.clone\(\);': 'proof { broadcast use axiom_atom_negate; }'}),
 }
 
 EXTRA = '''
+spec fn lexem_at(p: Parser, k: int) -> Option<Lexem> {
+    if 0 <= p.index + k < p.lexems.len() { Some(p.lexems[p.index + k]) } else { None }
+}
+// text of a word token (quoted or not)
+spec fn lexem_text(l: Option<Lexem>) -> Option<Seq<char>> {
+    match l {
+        Some(Lexem::RawString(s)) => Some(s@),
+        Some(Lexem::String(s)) => Some(s@),
+        _ => None,
+    }
+}
+
+// ---- C03: semantics of a condition tree, mirroring the dispatch order of Searcher::conforms (logical_op first,
+// then op). A comparison leaf is an uninterpreted truth value `atom(left, op, right)` of the current entry.
+pub uninterp spec fn atom(l: Expr, op: Op, r: Expr) -> bool;
+pub uninterp spec fn other_sem(e: Expr) -> bool;
+
+// Assumed here, PROVED per typed arm by Engine F (obligations C03.negate.complement.{int,float,bool,datetime});
+// for the string arm (regex) it is an assumption.
+#[verifier::external_body]
+pub broadcast proof fn axiom_atom_negate(l: Expr, op: Op, r: Expr)
+    ensures #[trigger] atom(l, spec_negate(op), r) == !atom(l, op, r)
+{}
+
+pub open spec fn cond_sem(e: Expr) -> bool
+    decreases e
+{
+    if e.logical_op is Some {
+        if e.left is Some && e.right is Some {
+            match e.logical_op->Some_0 {
+                LogicalOp::And => cond_sem(*e.left->Some_0) && cond_sem(*e.right->Some_0),
+                LogicalOp::Or => cond_sem(*e.left->Some_0) || cond_sem(*e.right->Some_0),
+            }
+        } else { other_sem(e) }
+    } else if e.op is Some {
+        if e.left is Some && e.right is Some { atom(*e.left->Some_0, e.op->Some_0, *e.right->Some_0) } else { other_sem(e) }
+    } else { other_sem(e) }
+}
+
+// shape of every tree parse_cond / parse_and / parse_expr build for a WHERE clause
+pub open spec fn cond_wf(e: Expr) -> bool
+    decreases e
+{
+    if e.logical_op is Some {
+        e.left is Some && e.right is Some && cond_wf(*e.left->Some_0) && cond_wf(*e.right->Some_0)
+    } else {
+        e.op is Some && e.left is Some && e.right is Some
+    }
+}
+
 // canary: must FAIL (vacuity / machinery guard)
 fn verif_canary_must_fail(x: u8) -> (r: u8)
     ensures r == 255,
